@@ -30,6 +30,12 @@ def jobs_for(tier, rng):
             job["calls"] = rng.choice([[1, 1, 1, 1], [2, 2], [1, 3], [3, 1]])
             job["twin_calls"] = [4]
         jobs.append(job)
+    # beyond the default iteration limit (2000): integer-valued undiscounted rings never leave the 32-bit range
+    for k in range(1 if tier == "quick" else 3):
+        m = gen.ring(rng, rng.randint(3, 5), extra=rng.randint(3, 4), v0max=1, rmax=2)
+        jobs.append({"mdp": m, "kind": "SAVI", "gamma": [1, 1], "eps": [1, 12], "test": "span",
+                     "calls": [2100] if k == 0 else [1200, 900, 50], "mbs": 2, "shuffle": True, "seed": 100 + k,
+                     "tag": f"savi-long{k}"})
     return jobs
 
 
